@@ -1,5 +1,6 @@
 import LiquidModel.Drv.Codec
 import LiquidModel.Drv.Render
+import LiquidModel.Drv.FilterOp
 import LiquidModel.Drv.C05
 namespace Liquid.Drv
 
